@@ -31,18 +31,22 @@ def gen_targeted(run, n):
         coll = jo([(k, ji(v) if v != "bad" else js("bad")) for k, v in zip("abcd", vals)]) if isobj else ja([ji(v) if v != "bad" else js("bad") for v in vals])
         outer = {}
         pre = []
+        keys_used = list("abcd")[:len(vals)]
+        # values a parameter will be bound to in some iteration (a coincidence with the outer value must not matter)
+        bound = [js(k) for k in keys_used] + [ji(i) for i in range(len(vals))] + [ji(v) if v != "bad" else js("bad") for v in vals]
         for p in params:
             if rng.random() < 0.6:
-                outer[p] = rng.choice([js("outer"), ji(77), None, ja([ji(1)])])
+                outer[p] = rng.choice([js("outer"), ji(77), None, ja([ji(1)])] + bound)
                 pre.append(("assign", ("tvar", p, []), lit(outer[p])))
         mode = rng.choice(["fail", "ok", "assign_param", "return", "abort"])
         body = []
         if mode == "assign_param":
             body.append(("assign", ("tvar", params[-1], []), lit(js("clobbered"))))
+        trig = js(rng.choice(keys_used)) if fn == "map_keys" else ji(rng.choice([1, 2, 3]))
         if mode == "return":
-            body.append(("if", [("op", "eq", ("var", params[-1]), lit(ji(2)))], [("return", lit(True) if fn == "filter" else lit(js("rk")))], None))
+            body.append(("if", [("op", "eq", ("var", params[-1]), lit(trig))], [("return", lit(True) if fn == "filter" else lit(js("rk")))], None))
         if mode == "abort":
-            body.append(("if", [("op", "eq", ("var", params[-1]), lit(ji(3)))], [("abort", lit(js("ab")))], None))
+            body.append(("if", [("op", "eq", ("var", params[-1]), lit(trig))], [("abort", lit(js("ab")))], None))
         # the body fails when it meets "bad" (fail mode: via int(...) on the element / key)
         probe = ("call", "int", False, [("var", params[-1])]) if fn != "map_keys" else ("call", "int", False, [ev_field("s")])
         if mode == "fail":
